@@ -314,11 +314,13 @@ theorem pull_frame (s : S) (b r : Nat) :
       exact ⟨h1.trans c1, h2.trans c2, h3.trans c3⟩
     · exact create_frame s b r
 
-/-- All deltas of a piece of script are non-negative. -/
-def NonNeg (acts : List Act) : Prop := ∀ d, Act.yield d ∈ acts → 0 ≤ d
+/-- All deltas of a piece of script are non-negative and no clock's beats are moved by hand
+    (the `beats` setter deliberately makes pending tasks overdue). -/
+def NonNeg (acts : List Act) : Prop :=
+  (∀ d, Act.yield d ∈ acts → 0 ≤ d) ∧ (∀ i b, Act.setBeats i b ∉ acts)
 
 theorem NonNeg.tail {a : Act} {rest : List Act} (h : NonNeg (a :: rest)) : NonNeg rest :=
-  fun d hd => h d (by simp [hd])
+  ⟨fun d hd => h.1 d (by simp [hd]), fun i b hm => h.2 i b (by simp [hm])⟩
 
 /-- A routine body keeps `Mono`: whatever it does (yield, spawn, tempo changes, pause / resume /
     stop, wait / signal …) nothing pending ends up before the current logical time. -/
@@ -335,7 +337,7 @@ theorem runActs_mono {t : Rat} {x : Ctx} (acts : List Act) (hn : NonNeg acts) {s
     | yield d =>
       simp only
       apply h1.add
-      have hd : 0 ≤ d := hn d (by simp)
+      have hd : 0 ≤ d := hn.1 d (by simp)
       have := Tempo.b2s_mono (h1.wf.params x.clk) (a := x.beats) (b := x.beats + d) (by linarith)
       exact le_trans h1.ctx this
     | hang => exact h1
@@ -385,6 +387,7 @@ theorem runActs_mono {t : Rat} {x : Ctx} (acts : List Act) (hn : NonNeg acts) {s
       obtain ⟨p1, p2, p3⟩ := pull_frame (s.bumpPc x.rid) x.rid r
       exact ih' (h1.of_same p1 p2 p3)
     | raise => exact h1.of_same rfl rfl rfl
+    | setBeats i b => exact absurd (by simp) (hn.2 i b)
 
 /-! ### Choosing the next task -/
 
@@ -578,6 +581,7 @@ theorem runActs_script (acts : List Act) (x : Ctx) (s : S) (i : Nat) :
       simp only; split
       · rw [ih]; exact hb i
       · rw [ih]; exact hb i
+    | setBeats j b => simp only; rw [ih]; exact hb i
     | pause r =>
       simp only
       repeat' split
@@ -619,7 +623,7 @@ structure Good (s : S) : Prop where
   nonneg : ∀ r, NonNeg (s.rts r).script
 
 theorem NonNeg.drop {l : List Act} (h : NonNeg l) (n : Nat) : NonNeg (l.drop n) :=
-  fun d hd => h d (List.mem_of_mem_drop hd)
+  ⟨fun d hd => h.1 d (List.mem_of_mem_drop hd), fun i b hm => h.2 i b (List.mem_of_mem_drop hm)⟩
 
 /-- Executing a task that is due no later than everything else keeps `Good` and moves the
     logical time to that task's time. -/
@@ -948,6 +952,10 @@ theorem runActs_exact {x : Ctx} (acts : List Act) {s : S} (h : ExactRun s x)
       · simp only [setRt_rts_same]; rw [hb_self]
     | raise =>
       refine (ExactRun.setRt (hbump rfl) x.rid _ ?_ ?_ ?_ ?_ ?_).toExact <;> simp
+    | setBeats i b =>
+      refine cont _ ((hbump rfl).retime _ _) ?_ ?_
+      · simp only [retime_rts]; rw [hb_self]
+      · simp only [retime_rts]; rw [hb_self]
     | setTempo i v =>
       simp only
       split
@@ -1141,6 +1149,7 @@ theorem runActs_trace_mono (acts : List Act) (x : Ctx) (s : S) (ev : Ev) (h : ev
       simp only; split
       · exact ih _ hb
       · exact ih _ (List.mem_cons_of_mem _ hb)
+    | setBeats i b => exact ih _ hb
     | pause r =>
       simp only
       repeat' split
@@ -1260,6 +1269,7 @@ theorem runActs_traceExact (acts : List Act) (x : Ctx) {s : S} (h : TraceExact s
       simp only; split
       · exact ih' (hb.same rfl rfl)
       · exact ih' (hb.emit _ (by intros; simp))
+    | setBeats i b => exact ih' (hb.same rfl rfl)
     | stop r =>
       simp only
       split
